@@ -530,16 +530,7 @@ pub fn all_opts() -> Vec<Value> {
 // ---------------------------------------------------------------------------------------------
 // suites
 
-struct Out {
-    n: u64,
-}
-impl Out {
-    fn emit(&mut self, mut c: Value) {
-        c.as_object_mut().unwrap().insert("id".into(), json!(self.n));
-        self.n += 1;
-        println!("{c}");
-    }
-}
+use crate::gen2::Out;
 
 fn counts(tier: &str, quick: u64, thorough: u64) -> u64 {
     if tier == "thorough" {
@@ -745,6 +736,25 @@ pub fn gen_main(args: &[String]) -> i32 {
         "avps_readers" => suite_avps(&mut out, tier, &mut rng, &["all"]),
         "payload" => suite_payload(&mut out, tier, &mut rng, &["slice"]),
         "payload_readers" => suite_payload(&mut out, tier, &mut rng, &["all"]),
+        "encode" => crate::gen2::suite_encode(&mut out, tier, &mut rng),
+        "encode_seq" => crate::gen2::suite_encode_seq(&mut out, tier, &mut rng),
+        "roundtrip_ctl" => crate::gen2::suite_roundtrip_ctl(&mut out, tier, &mut rng),
+        "roundtrip_data" => crate::gen2::suite_roundtrip_data(&mut out, tier, &mut rng),
+        "chain" => crate::gen2::suite_chain(&mut out, tier, &mut rng),
+        "hide" => crate::gen2::suite_hide(&mut out, tier, &mut rng),
+        "reveal" => crate::gen2::suite_reveal(&mut out, tier, &mut rng),
+        "hide_reveal" => crate::gen2::suite_hide_reveal(&mut out, tier, &mut rng),
+        "enum" => crate::gen2::suite_enum(&mut out, tier, &mut rng),
+        "bitmask" => crate::gen2::suite_bitmask(&mut out, tier, &mut rng),
+        "render" => crate::gen2::suite_render(&mut out, tier, &mut rng),
+        "cursor" => crate::gen2::suite_cursor(&mut out, tier, &mut rng),
+        "vecwriter" => crate::gen2::suite_vecwriter(&mut out, tier, &mut rng),
+        "decode_seq" => crate::gen2::suite_decode_seq(&mut out, tier, &mut rng),
+        "suffix" => crate::gen2::suite_suffix(&mut out, tier, &mut rng),
+        "concat" => crate::gen2::suite_concat(&mut out, tier, &mut rng),
+        "flags" => crate::gen2::suite_flags(&mut out, tier, &mut rng),
+        "fault" => crate::gen2::suite_fault(&mut out, tier, &mut rng),
+        "threads" => crate::gen2::suite_threads(&mut out, tier, &mut rng),
         other => {
             eprintln!("unknown suite {other}");
             return 2;
